@@ -7,6 +7,8 @@ RUNS = {"quick": 4000, "thorough": 100000}
 BUDGET_S = {"quick": 50, "thorough": 840}
 CHUNK = 50
 RULE = ('One evaluation = one seeded history with `gwf clean` (every combination of --all, -f, patterns, prompt answers y/n/empty; protect sets spelled plain, ./x, zz/../x, absolute, absolute-unnormalised; files that are outputs of one and inputs of another target; declared outputs that are symbolic links to data files belonging to nobody; one unlink failing with EACCES in a quarter of the commands). Oracle M_clean from a before/after snapshot: removed == existing unprotected outputs of the selected non-excluded targets exactly, everything else byte- and mtime-identical, tracked jobs untouched, hashes of cleaned targets forgotten, declined prompt => nothing changed. Reference-model conformance over command histories rather than a schedule/fault property.')
+RULE += (" Histories also contain interrupted or failing gwf invocations (hard kill at a seam event, Ctrl-C, ENOSPC, a failing or "
+         "unreachable scheduler command) - only the invocations after them are judged - and 1-2 % of the runs use 140-260 targets.")
 PROFILE = dict(
     nontrivial_probes=['clean_commands'],
     backends=["slurm", "slurm", "sge", "lsf", "local"],
